@@ -60,9 +60,11 @@ def step (s : State) : Ev → State
   | .callFinish =>
     match s.conn with
     | some .opened => { s with conn := some .finishing, last := .ok }
-    | some .closedIdle => { s with conn := none, last := .rawError }     -- RuntimeError from the state guard; detached
+    -- RuntimeError from the state guard; a closed connection (idle, or still being unwound by its task) is detached
+    | some .closedIdle | some .closedStart | some .closedFinish => { s with conn := none, last := .rawError }
     | none => { s with last := .rawError }
-    | some _ => s
+    -- an attempt in progress / a session up: refused by the state guard (RuntimeError), the connection stays attached
+    | some _ => { s with last := .rawError }
   | .hsDone => if s.conn = some .finishing then { s with conn := some .hello } else s
   | .finishOk => if s.conn = some .hello then { s with conn := some .connected } else s
   | .finishFail =>
